@@ -564,8 +564,14 @@ func (c *EvalCtx) evalField(e *SExpr) (SV, error) {
 		return SV{V: TV{vb.T}, T: p.T}, nil
 	}
 	ft := derefType(p.T)
-	if _, isT := ex.tm.isTargetStruct(ft); isT {
-		// struct-typed field: denote it by its address
+	if _, isStruct := ft.Underlying().(*types.Struct); isStruct {
+		// struct-typed field (also of an external type such as sync.Mutex):
+		// denote it by its address
+		if l, ok := p.V.(Loc); ok {
+			if t, ok := ex.reify(l); ok {
+				return SV{V: TV{t}, T: p.T}, nil
+			}
+		}
 		return SV{V: p.V, T: p.T}, nil
 	}
 	return SV{V: ex.load(c.st, p.V, ft), T: ft}, nil
